@@ -125,6 +125,61 @@ MUTANTS = [
     ('c15-edges-by-sources-only', 'penman/graph.py',
      "        vs = set(src for src, _, _ in self.triples)\n        if self._top is not None:\n            vs.add(self._top)\n        return vs",
      "        vs = set(src for src, _, _ in self.triples)\n        return vs", ['C15'], False, []),
+    # ---- round 2 of hand-written mutants ---------------------------------------------------------------
+    ('c06-no-progress-check', 'penman/layout.py',
+     "        elif len(data) >= data_count:\n            raise LayoutError('unknown configuration error')",
+     "        elif len(data) > data_count:\n            raise LayoutError('unknown configuration error')\n        elif len(data) == data_count:\n            data = skipped + data\n            skipped.clear()",
+     ['C06'], False, []),
+    ('c06-layouterror-as-valueerror', 'penman/layout.py',
+     "        raise LayoutError(f'top is not a variable: {top!r}')", "        raise ValueError(f'top is not a variable: {top!r}')",
+     ['C06'], False, []),
+    ('c16-dfs-forward-only', 'penman/model.py',
+     "    for var, targets in q.items():\n        for target in targets:\n            if target not in q:\n                q[target] = set()\n            q[target].add(var)",
+     "    pass", ['C16'], False, []),
+    ('c16-empty-graph-no-error', 'penman/model.py',
+     "            err[None].append('graph is empty')", "            pass", ['C16'], False, []),
+    ('c20-indent-zero-means-default', 'penman/__main__.py',
+     "                indent = int(indent)\n                if indent < -1:", "                indent = int(indent) or -1\n                if indent < -1:",
+     ['C20'], False, []),
+    ('c20-triples-indent-flipped', 'penman/__main__.py',
+     "                indent=bool(format_options.get('indent', True)),", "                indent=not bool(format_options.get('indent', True)),",
+     [], True, []),   # --triples output is compared token for token: line style is not documented
+    ('c20-check-mutates-before-format-only-first', 'penman/__main__.py',
+     "    if normalize_options['make_variables']:\n        t.reset_variables(normalize_options['make_variables'])",
+     "    if normalize_options['make_variables'] and not normalize_options['rearrange']:\n        t.reset_variables(normalize_options['make_variables'])",
+     ['C20'], False, []),
+    ('c15-reentrancies-ignore-top', 'penman/graph.py',
+     "        if self.top is not None:\n            entrancies[self.top] += 1  # implicit entrancy to top", "        pass",
+     ['C15'], False, []),
+    ('c15-attributes-ignore-role-filter', 'penman/graph.py',
+     "            for t in self._filter_triples(source, role, target)\n            if t[1] != CONCEPT_ROLE and t[2] not in variables",
+     "            for t in self._filter_triples(source, None, target)\n            if t[1] != CONCEPT_ROLE and t[2] not in variables",
+     ['C15'], False, []),
+    ('c15-ior-drops-markers-of-added', 'penman/graph.py',
+     "                if t in other.epidata:\n                    self.epidata[t] = list(other.epidata[t])\n            self.epidata.update(other.epidata)",
+     "                pass", ['C15'], False, []),
+    ('c05-attributes-first-reversed', 'penman/layout.py',
+     "            criterion1 = target in variables\n        else:", "            criterion1 = target not in variables\n        else:",
+     ['C05'], False, []),
+    ('c05-alphanumeric-as-string', 'penman/model.py',
+     "            roleno = int(m.group(2))", "            roleno = m.group(2)", ['C05'], False, []),
+    ('c12-dereify-collapses-top', 'penman/transform.py',
+     "    fixed: Set[Target] = set([g.top])", "    fixed: Set[Target] = set()", ['C12'], False, []),
+    ('c12-indicate-branches-direction', 'penman/transform.py',
+     "                new_triples.append((t[2], model.top_role, t[0]))", "                new_triples.append((t[0], model.top_role, t[2]))",
+     ['C12'], False, []),
+    ('c17-preconfigure-consumes-epidata', 'penman/layout.py',
+     "        for epi in epidata.get(triple, []):\n            if isinstance(epi, Push):\n                pvar = epi.variable",
+     "        for epi in epidata.pop(triple, []):\n            if isinstance(epi, Push):\n                pvar = epi.variable",
+     ['C17', 'C06'], False, []),
+    ('c17-interpret-shares-metadata', 'penman/graph.py',
+     "        self.metadata = dict(metadata)", "        self.metadata = metadata", ['C17'], False, []),
+    ('c09-lexer-strips-lines', 'penman/_lexer.py',
+     "        matches = regex.finditer(line)", "        matches = regex.finditer(line.strip())", [], True, []),  # offsets change only
+    ('c09-load-opens-binary-latin1', 'penman/codec.py',
+     "        with open(source, encoding=encoding) as fh:\n            return list(codec.iterdecode(fh))",
+     "        with open(source, encoding=encoding, newline='\\n') as fh:\n            return list(codec.iterdecode(fh))",
+     ['C09'], False, []),
     # ---- behaviour-preserving refactorings: every check must stay silent ------------------------------
     ('refactor-rename-locals', 'penman/graph.py',
      "            removed = set(other.triples)\n            self.triples[:] = [t for t in self.triples if t not in removed]\n            for t in removed:",
